@@ -218,29 +218,54 @@ func (sc *StructureClass) LoadForm() slip.Object {
 
 	// Name and options
 	if sc.hasNonDefaultOptions() {
+		// Each option is a list of its own, (:conc-name p-). The
+		// representation type comes first, :named and :include depend on it.
 		opts := slip.List{slip.Symbol(sc.name)}
+		option := func(key string, value slip.Object) {
+			opts = append(opts, slip.List{slip.Symbol(key), value})
+		}
+		if sc.repType != "" {
+			option(":type", sc.repType)
+			if sc.named {
+				opts = append(opts, slip.Symbol(":named"))
+			}
+		}
 		if sc.concName != sc.name+"-" {
 			if sc.concName == "" {
-				opts = append(opts, slip.Symbol(":conc-name"), nil)
+				option(":conc-name", nil)
 			} else {
-				opts = append(opts, slip.Symbol(":conc-name"), slip.Symbol(sc.concName))
+				option(":conc-name", slip.Symbol(sc.concName))
+			}
+		}
+		if len(sc.constructors) == 0 {
+			option(":constructor", nil)
+		} else if len(sc.constructors) != 1 || sc.constructors[0].name != "make-"+sc.name || sc.constructors[0].boaList != nil {
+			for _, cs := range sc.constructors {
+				if cs.boaList == nil {
+					option(":constructor", slip.Symbol(cs.name))
+				} else {
+					opts = append(opts, slip.List{slip.Symbol(":constructor"), slip.Symbol(cs.name), cs.boaList})
+				}
 			}
 		}
 		if sc.copierName == "" {
-			opts = append(opts, slip.Symbol(":copier"), nil)
+			option(":copier", nil)
 		} else if sc.copierName != "copy-"+sc.name {
-			opts = append(opts, slip.Symbol(":copier"), slip.Symbol(sc.copierName))
+			option(":copier", slip.Symbol(sc.copierName))
 		}
 		if sc.predicateName == "" {
-			opts = append(opts, slip.Symbol(":predicate"), nil)
+			// A typed structure that is not named has no predicate anyway.
+			if sc.repType == "" || sc.named {
+				option(":predicate", nil)
+			}
 		} else if sc.predicateName != sc.name+"-p" {
-			opts = append(opts, slip.Symbol(":predicate"), slip.Symbol(sc.predicateName))
+			option(":predicate", slip.Symbol(sc.predicateName))
 		}
 		if sc.include != nil {
-			opts = append(opts, slip.List{slip.Symbol(":include"), slip.Symbol(sc.include.name)})
+			option(":include", slip.Symbol(sc.include.name))
 		}
-		if sc.repType != "" {
-			opts = append(opts, slip.Symbol(":type"), sc.repType)
+		if sc.initialOffset != 0 {
+			option(":initial-offset", slip.Fixnum(sc.initialOffset))
 		}
 		form = append(form, opts)
 	} else {
@@ -258,11 +283,13 @@ func (sc *StructureClass) LoadForm() slip.Object {
 		inheritedCount = len(sc.include.slots)
 	}
 	for i, slot := range sc.slots {
-		if i < sc.initialOffset+inheritedCount {
+		// The slots of the included structure come first, an initial
+		// offset is not part of the slots.
+		if i < inheritedCount {
 			// Skip inherited slots unless the slot description was
 			// overridden by this structure.
-			if j := i - sc.initialOffset; sc.include != nil && 0 <= j && j < len(sc.include.slots) {
-				ps := sc.include.slots[j]
+			if sc.include != nil {
+				ps := sc.include.slots[i]
 				if ps.name == slot.name &&
 					(!slip.ObjectEqual(ps.initform, slot.initform) ||
 						!slip.ObjectEqual(ps.slotType, slot.slotType) ||
@@ -285,8 +312,10 @@ func (sc *StructureClass) hasNonDefaultOptions() bool {
 		sc.predicateName != sc.name+"-p" ||
 		sc.include != nil ||
 		sc.repType != "" ||
+		sc.initialOffset != 0 ||
 		len(sc.constructors) != 1 ||
-		sc.constructors[0].name != "make-"+sc.name
+		sc.constructors[0].name != "make-"+sc.name ||
+		sc.constructors[0].boaList != nil
 }
 
 func (sc *StructureClass) slotLoadForm(slot *StructureSlot) slip.Object {
